@@ -259,6 +259,9 @@ namespace sim
                   ++f.overflow;
                }
                // C18.residue
+               if( e.flags & ( F_SUB | F_NOPOS ) ) {
+                  break;  // stock input classes (I/O jobs): no depth counter, no stable end pointer
+               }
                if( has_depth && e.depth != 0 ) {
                   cx.viol( "C18.residue", "depth-residue", i, "current_depth() = " + std::to_string( e.depth ) + " after the run" );
                }
@@ -483,7 +486,7 @@ namespace sim
                         }
                      }
                      else {
-                        const bool known = ( x.cls == EXC_ABORT ) || ( x.cls == EXC_OVERFLOW && !cx.memory_set ) || ( x.cls == EXC_IO ) || ( x.cls == EXC_BAD_ALLOC )
+                        const bool known = ( x.cls == EXC_ABORT ) || ( x.cls == EXC_OVERFLOW && !cx.memory_set ) || ( x.cls == EXC_IO ) || ( x.cls == EXC_BAD_ALLOC ) || ( x.cls == EXC_SYSTEM && int( set ) >= 20 )
                                            || ( fr.cls == RC::W_CHECK_BYTES && x.cls == EXC_PE_LIB && x.message == "maximum allowed rule consumption exceeded" );
                         if( !known ) {
                            cx.viol( "C05.same", hn, i, "exception of unknown origin leaves " + short_name( fr.rule ) + ": class " + std::to_string( x.cls ) + " '" + x.what + "'" );
@@ -880,13 +883,12 @@ namespace sim
       (void)ref_set;
       (void)chunk;
       Ctx cx{ c, alt_set, alt, out, f, false };
-      const bool alt_is_buffer = ( alt_set == SET_BUF || alt_set == SET_BUF1 || alt_set == SET_BUF64 );
       // first overflow_error in the alternative run: comparison stops there (permitted deviation),
       // provided the documented window guarantee did not cover the failing request
       std::size_t alt_stop = alt.h.size();
       bool overflow = false;
       bool io_fault = false;
-      if( alt_is_buffer ) {
+      {
          std::uint32_t last_discard = 0;
          const Event* last_req = nullptr;
          std::size_t last_req_idx = 0;
@@ -899,7 +901,7 @@ namespace sim
                last_req = &e;
                last_req_idx = i;
             }
-            else if( e.kind == Ev::FAULT && ( ( e.x >> 8 ) & 0xff ) == SITE_READER ) {
+            else if( e.kind == Ev::FAULT && ( ( ( e.x >> 8 ) & 0xff ) == SITE_READER || ( ( e.x >> 8 ) & 0xff ) == SITE_SYSCALL ) ) {
                // injected I/O error: the alternative run may only deviate from here on (its own history is
                // judged by the exception invariants); everything before must equal the reference
                io_fault = true;
@@ -979,6 +981,36 @@ namespace sim
          }
          if( i < ref.h.size() ) {
             cx.viol( "C07.equal", "length", j, "alternative configuration ended early; reference continues with " + ev_brief( ref.h[ i ], ref ) );
+         }
+      }
+   }
+
+   void check_iofault( const Case& c, const RunResult& alt, std::vector< Violation >& out, Features& f )
+   {
+      (void)f;
+      Ctx cx{ c, SET_MEM, alt, out, f, false };
+      bool ioerr = false, syscall_fault = false;
+      std::size_t at = 0;
+      for( std::size_t i = 0; i < alt.h.size(); ++i ) {
+         const Event& e = alt.h[ i ];
+         if( e.kind == Ev::IOERR && !ioerr ) {
+            ioerr = true;
+            at = i;
+            syscall_fault = ( e.y == 1 );
+         }
+         else if( ioerr && ( e.kind == Ev::ENTER || e.kind == Ev::READ || e.kind == Ev::A_APPLY || e.kind == Ev::A_APPLY0 ) ) {
+            cx.viol( "C07.iofault", syscall_fault ? "syscall" : "reader", i, std::string( "parsing continued after the " ) + ( syscall_fault ? "failing system call" : "stream reported an error without delivering data" ) + " (event " + std::to_string( at ) + "): " + event_to_string( e, alt.excs ) );
+            return;
+         }
+         else if( e.kind == Ev::TOP_END && ioerr ) {
+            const bool exc = ( e.flags & F_EXC ) != 0;
+            if( !exc ) {
+               cx.viol( "C07.iofault", syscall_fault ? "syscall" : "reader", i, "the I/O error was swallowed: parse() returned normally" );
+            }
+            else if( e.x < alt.excs.size() && alt.excs[ e.x ].cls != EXC_SYSTEM ) {
+               cx.viol( "C07.iofault", syscall_fault ? "syscall" : "reader", i, "the I/O error surfaced as an exception of class " + std::to_string( alt.excs[ e.x ].cls ) + " '" + alt.excs[ e.x ].what + "', not as std::system_error / filesystem_error" );
+            }
+            return;
          }
       }
    }
